@@ -264,6 +264,45 @@ class AddLayer(Command):
         self.viewer.remove_layer(self.layer)
 
 
+def _save_subset_states(data_collection):
+    """
+    Return the current subset states, so that a command that changes the
+    subsets can be undone.
+    """
+    from glue.core.subset_group import GroupedSubset
+    # The subsets in a subset group share the state of the group, so we store
+    # this for the group rather than for the individual subsets, as these can
+    # be replaced by new objects if e.g. a dataset is removed and added again.
+    states = {}
+    for group in data_collection.subset_groups:
+        states[group] = group.subset_state
+    for data in data_collection:
+        for subset in data.subsets:
+            if not isinstance(subset, GroupedSubset):
+                states[subset] = subset.subset_state
+    return states
+
+
+def _restore_subset_states(data_collection, states, created):
+    """
+    Restore states saved by _save_subset_states and remove the subset groups
+    and subsets in ``created``.
+    """
+    from glue.core.subset_group import SubsetGroup
+    for item in created:
+        if isinstance(item, SubsetGroup):
+            data_collection.remove_subset_group(item)
+        elif item in item.data.subsets:
+            item.delete()
+    for group in data_collection.subset_groups:
+        if group in states:
+            group.subset_state = states[group]
+    for data in data_collection:
+        for subset in data.subsets:
+            if subset in states:
+                subset.subset_state = states[subset]
+
+
 class ApplyROI(Command):
     """
     Apply an ROI to a data collection, updating subset states
@@ -281,21 +320,17 @@ class ApplyROI(Command):
     label = 'apply ROI'
 
     def do(self, session):
-        self.old_states = {}
-        for data in self.data_collection:
-            for subset in data.subsets:
-                self.old_states[subset] = subset.subset_state
+        self.old_states = _save_subset_states(self.data_collection)
+        self.old_edit_subset = session.edit_subset_mode.edit_subset
 
         self.apply_func(self.roi)
 
-    def undo(self, session):
-        for data in self.data_collection:
-            for subset in data.subsets:
-                if subset not in self.old_states:
-                    subset.delete()
+        self.created = [item for item in _save_subset_states(self.data_collection)
+                        if item not in self.old_states]
 
-        for k, v in self.old_states.items():
-            k.subset_state = v
+    def undo(self, session):
+        _restore_subset_states(self.data_collection, self.old_states, self.created)
+        session.edit_subset_mode.edit_subset = self.old_edit_subset
 
 
 class ApplySubsetState(Command):
@@ -316,10 +351,8 @@ class ApplySubsetState(Command):
 
     def do(self, session):
 
-        self.old_states = {}
-        for data in self.data_collection:
-            for subset in data.subsets:
-                self.old_states[subset] = subset.subset_state
+        self.old_states = _save_subset_states(self.data_collection)
+        self.old_edit_subset = session.edit_subset_mode.edit_subset
 
         mode = session.edit_subset_mode
         override_mode = self.extra.get('override_mode')
@@ -331,14 +364,12 @@ class ApplySubsetState(Command):
 
         mode.update(self.data_collection, self.subset_state, override_mode=override_mode)
 
-    def undo(self, session):
-        for data in self.data_collection:
-            for subset in data.subsets:
-                if subset not in self.old_states:
-                    subset.delete()
+        self.created = [item for item in _save_subset_states(self.data_collection)
+                        if item not in self.old_states]
 
-        for k, v in self.old_states.items():
-            k.subset_state = v
+    def undo(self, session):
+        _restore_subset_states(self.data_collection, self.old_states, self.created)
+        session.edit_subset_mode.edit_subset = self.old_edit_subset
 
 
 class LinkData(Command):
